@@ -130,6 +130,10 @@ func main() {
 			if rules["r4"] {
 				rw.r4(substs)
 			}
+			if rules["r5"] && doR23 {
+				rw.r5()
+				rw.r6()
+			}
 			if rules["r3"] && doR23 {
 				rw.r3()
 			}
@@ -276,6 +280,118 @@ func (rw *rewriter) r1() {
 	})
 	if n > 0 {
 		rw.counts["r1"] += n
+		rw.changed = true
+		astutil.AddNamedImport(rw.fset, rw.file, "simrt", simrtPath)
+	}
+}
+
+// r5 rewrites select statements into simrt.Select so that the choice among several ready cases
+// is the simulator's:
+//
+//	{ __c0 := ch0; ...; switch __si, __sv, __sok := simrt.Select(cases, hasDefault); __si { case 0: v := simrt.RecvAs(__c0, __sv); body ... } }
+func (rw *rewriter) r5() {
+	n := 0
+	astutil.Apply(rw.file, nil, func(c *astutil.Cursor) bool {
+		sel, ok := c.Node().(*ast.SelectStmt)
+		if !ok {
+			return true
+		}
+		if _, labeled := c.Parent().(*ast.LabeledStmt); labeled {
+			rw.unsupported = "labeled select statement (R5)"
+			return false
+		}
+		n++
+		var pre []ast.Stmt
+		var cases []ast.Expr
+		var clauses []ast.Stmt
+		hasDefault := false
+		idx := 0
+		for _, st := range sel.Body.List {
+			cc := st.(*ast.CommClause)
+			if cc.Comm == nil {
+				hasDefault = true
+				clauses = append(clauses, &ast.CaseClause{List: []ast.Expr{&ast.UnaryExpr{Op: token.SUB, X: &ast.BasicLit{Kind: token.INT, Value: "1"}}}, Body: cc.Body})
+				continue
+			}
+			chID := rw.fresh("sc")
+			use := &ast.AssignStmt{Lhs: []ast.Expr{ast.NewIdent("_"), ast.NewIdent("_")}, Tok: token.ASSIGN, Rhs: []ast.Expr{ast.NewIdent("__sv"), ast.NewIdent("__sok")}}
+			body := []ast.Stmt{use}
+			kv := func(k string, v ast.Expr) ast.Expr { return &ast.KeyValueExpr{Key: ast.NewIdent(k), Value: v} }
+			switch comm := cc.Comm.(type) {
+			case *ast.SendStmt:
+				valID := rw.fresh("sv")
+				pre = append(pre, &ast.AssignStmt{Lhs: []ast.Expr{chID}, Tok: token.DEFINE, Rhs: []ast.Expr{comm.Chan}},
+					&ast.AssignStmt{Lhs: []ast.Expr{valID}, Tok: token.DEFINE, Rhs: []ast.Expr{comm.Value}})
+				cases = append(cases, &ast.CompositeLit{Elts: []ast.Expr{kv("Dir", &ast.BasicLit{Kind: token.INT, Value: "1"}), kv("Ch", chID), kv("Val", valID)}})
+			case *ast.ExprStmt:
+				ue := comm.X.(*ast.UnaryExpr)
+				pre = append(pre, &ast.AssignStmt{Lhs: []ast.Expr{chID}, Tok: token.DEFINE, Rhs: []ast.Expr{ue.X}})
+				cases = append(cases, &ast.CompositeLit{Elts: []ast.Expr{kv("Dir", &ast.BasicLit{Kind: token.INT, Value: "0"}), kv("Ch", chID)}})
+			case *ast.AssignStmt:
+				ue := comm.Rhs[0].(*ast.UnaryExpr)
+				pre = append(pre, &ast.AssignStmt{Lhs: []ast.Expr{chID}, Tok: token.DEFINE, Rhs: []ast.Expr{ue.X}})
+				cases = append(cases, &ast.CompositeLit{Elts: []ast.Expr{kv("Dir", &ast.BasicLit{Kind: token.INT, Value: "0"}), kv("Ch", chID)}})
+				recv := &ast.CallExpr{Fun: sel2("simrt", "RecvAs"), Args: []ast.Expr{chID, ast.NewIdent("__sv")}}
+				rhs := []ast.Expr{recv}
+				if len(comm.Lhs) == 2 {
+					rhs = append(rhs, ast.NewIdent("__sok"))
+				}
+				body = append(body, &ast.AssignStmt{Lhs: comm.Lhs, Tok: comm.Tok, Rhs: rhs})
+				// a received variable may be unused in the original only if blank; nothing to add
+			default:
+				rw.unsupported = "unexpected select communication clause (R5)"
+				return false
+			}
+			body = append(body, cc.Body...)
+			clauses = append(clauses, &ast.CaseClause{List: []ast.Expr{&ast.BasicLit{Kind: token.INT, Value: fmt.Sprint(idx)}}, Body: body})
+			idx++
+		}
+		hd := "false"
+		if hasDefault {
+			hd = "true"
+		}
+		call := &ast.CallExpr{Fun: sel2("simrt", "Select"), Args: []ast.Expr{
+			&ast.CompositeLit{Type: &ast.ArrayType{Elt: sel2("simrt", "SelCase")}, Elts: cases}, ast.NewIdent(hd)}}
+		sw := &ast.SwitchStmt{
+			Init: &ast.AssignStmt{Lhs: []ast.Expr{ast.NewIdent("__si"), ast.NewIdent("__sv"), ast.NewIdent("__sok")}, Tok: token.DEFINE, Rhs: []ast.Expr{call}},
+			Tag:  ast.NewIdent("__si"),
+			Body: &ast.BlockStmt{List: clauses},
+		}
+		if hasDefault && idx == 0 {
+			// select with only a default
+			sw.Init = nil
+			sw.Tag = &ast.UnaryExpr{Op: token.SUB, X: &ast.BasicLit{Kind: token.INT, Value: "1"}}
+		}
+		c.Replace(&ast.BlockStmt{List: append(pre, sw)})
+		return true
+	})
+	if n > 0 {
+		rw.counts["r5"] += n
+		rw.changed = true
+		astutil.AddNamedImport(rw.fset, rw.file, "simrt", simrtPath)
+	}
+}
+
+func sel2(pkg, name string) ast.Expr { return sel(pkg, name) }
+
+// r6 rewrites channel send statements outside select into simrt.Send, so that a goroutine that
+// had to block natively re-enters the simulation through the scheduler.
+func (rw *rewriter) r6() {
+	n := 0
+	astutil.Apply(rw.file, nil, func(c *astutil.Cursor) bool {
+		ss, ok := c.Node().(*ast.SendStmt)
+		if !ok {
+			return true
+		}
+		if _, inComm := c.Parent().(*ast.CommClause); inComm && c.Name() == "Comm" {
+			return true
+		}
+		n++
+		c.Replace(&ast.ExprStmt{X: &ast.CallExpr{Fun: sel("simrt", "Send"), Args: []ast.Expr{ss.Chan, ss.Value}}})
+		return true
+	})
+	if n > 0 {
+		rw.counts["r6"] += n
 		rw.changed = true
 		astutil.AddNamedImport(rw.fset, rw.file, "simrt", simrtPath)
 	}
